@@ -94,3 +94,8 @@ Definition cert4_b (eps : Z) (pi pj pk pl : Z * Z) : bool :=
   let '(xi, yi) := pi in let '(xj, yj) := pj in let '(xk, yk) := pk in let '(xl, yl) := pl in
   (xi <? xj) && (xk <? xl) &&
   ((band_hi eps yl - band_lo eps yk) * (xj - xi) <? (band_lo eps yj - band_hi eps yi) * (xl - xk)).
+
+(* judge for C03 on the implementation's own (exact rectangle slope, reported intercept) *)
+Definition line_close_b (eps dx dy first icpt : Z) (p : Z * Z) : bool :=
+  let '(x, y) := p in
+  (0 <? dx) && (2 * Z.abs (dy * (x - first) + (icpt - y) * dx) <=? (2 * eps + 1) * dx).
